@@ -541,16 +541,26 @@ func (nopHandler) HandleXMPP(xmlstream.TokenReadEncoder, *xml.StartElement) erro
 }
 
 type iqResponder struct {
-	r xml.TokenReader
-	c chan xmlstream.TokenReadCloser
+	r    xml.TokenReader
+	c    chan xmlstream.TokenReadCloser
+	once *sync.Once
 }
 
 func (r iqResponder) Token() (xml.Token, error) {
-	return r.r.Token()
+	tok, err := r.r.Token()
+	if err != nil && err != io.EOF {
+		// The input stream is broken and nothing more can be read from this
+		// response. Give the stream back to the serve loop now: a caller that
+		// stops at the error without closing the response (the iterators do)
+		// would otherwise block it for ever.
+		/* #nosec */
+		r.Close()
+	}
+	return tok, err
 }
 
 func (r iqResponder) Close() error {
-	close(r.c)
+	r.once.Do(func() { close(r.c) })
 	return nil
 }
 
@@ -613,8 +623,9 @@ func handleInputStream(s *Session, handler Handler) (err error) {
 			inner := xmlstream.Inner(r)
 			select {
 			case readerChan.c <- iqResponder{
-				r: xmlstream.Wrap(inner, start),
-				c: readerChan.c,
+				r:    xmlstream.Wrap(inner, start),
+				c:    readerChan.c,
+				once: &sync.Once{},
 			}:
 				<-readerChan.c
 				// Consume the rest of the stream before continuing the loop.
